@@ -19,6 +19,12 @@ func installYieldHooks() {
 	pikecompress.VerifYield = yieldHook
 	pikestore.VerifYield = yieldHook
 	pikeserver.VerifGo = goHook
+	// (none of these packages starts a goroutine today; one that an edit adds is scheduled
+	// like the server's)
+	pikecache.VerifGo = goHook
+	pikecompress.VerifGo = goHook
+	pikelocation.VerifGo = goHook
+	pikestore.VerifGo = goHook
 }
 
 func resetAll(cfg *Config) {
